@@ -25,7 +25,8 @@ META = {
         'numbers/booleans, plain-dict column metadata) has a branch in both ladders -- "anything parsed can be dumped" '
         'cannot fail for want of a branch.  Also: no dump function is memoised on its argument (equal values of different kinds have different texts); the ZINC escape pair (shared with C08.D1) and the exact JSON time conversion (shared with C05) keep both transcoding legs lossless.  Not decided: loss-freeness and idempotence as executions; whether '
         'timezone_name finds a zone for a parser-made fixed-offset tzinfo (tz database; its exception discipline is '
-        'C17.D3).'),
+        'C17.D3).'
+        ' Also (D3): both readers convert a stamp INTO the named zone (date-time API rule and zone_applied shared with C17.D2); the empty display string of a reference survives either format.'),
     'rule_text': 'obligations = dumper functions x purity, determinism scan, gate comparisons, reader kinds x ladders',
     'trusted_base': ['dict preserves insertion order (CPython >= 3.7); json.dumps is deterministic for a given object'],
 }
@@ -81,6 +82,17 @@ def run(ctx):
     for modname in ('zincdumper', 'jsondumper'):
         _zinc.header_version(ctx, 'C07.D3', modname)
         _zinc.version_threading(ctx, 'C07.D3', modname)
+    # lossless transcoding of date-times: both readers convert the stamp INTO the named zone (astimezone keeps the
+    # instant); a reader that re-labels the wall clock instead disagrees with the other format (shared with C17.D2)
+    from . import c17
+    c17._api(ctx, m, rule='C07.D3', only=('zincparser', 'jsonparser'))
+    c17.zone_applied(ctx, m, 'C07.D3', 'zincparser', '_parse_datetime', 'zinc')
+    c17.zone_applied(ctx, m, 'C07.D3', 'jsonparser', 'parse_embedded_scalar', 'json')
+    # the empty display string of a reference survives either format (shared with C08)
+    from . import _ref
+    _ref.ref_init(ctx, 'C07.D3')
+    _ref.json_ref_branch(ctx, 'C07.D3')
+    _ref.zinc_ref_action(ctx, 'C07.D3')
 
 
 class _Quiet(object):
